@@ -49,7 +49,7 @@ finding("C05-wildcard-helper-leak", "C05", ["C01", "C06", "C09"],
  "helper column (computed sort key, ROW_NUMBER of take-in-group, windowed filter operand, sort key dropped by a later select) or a user exclusion `select !{..}` in a query whose projection is a wildcard, on a dialect without EXCLUDE / EXCEPT, i.e. any dialect but duckdb, snowflake, bigquery (hazards wild_helpers, wild_except)",
  "`from t1 | sort {(a * -1), id}` compiles to `SELECT *, a * -1 AS _expr_0 FROM t1 ORDER BY _expr_0, id`: the result has the extra column _expr_0 (translate_exclude logs a warning and proceeds; its TODO says it should be an error). Same root for user exclusions: `from t1 | select !{a}` is `SELECT * FROM t1` under generic / sqlite / postgres ..., the excluded column is still in the result. Under duckdb / snowflake / bigquery both are emitted with EXCLUDE / EXCEPT and the check decides them strictly.",
  {"source": "from t1 | sort {(a * -1), id}", "arity": 3, "rows": [[I(3),I(2),N],[I(1),I(1),I(10)],[I(2),I(1),I(20)]], "ordered": True})
-finding("C01-append-pruning", "C01", ["C07"],
+finding("C01-append-pruning", "C01", ["C07", "C06", "C05"],
  "append whose top input is a let-table, is sorted, is a group/aggregate/join result, or that is followed by a projection (hazard append_free)",
  "Column pruning and sort-column propagation treat the two inputs of `append` differently: `let l0 = (from t1 | select {a, b})  from l0 | append (from t2 | select {a, c}) | select {b, a}` emits `SELECT b, a FROM l0 UNION ALL SELECT a, c FROM t2` (columns of the bottom not swapped: wrong rows); with `select {a}` the bottom keeps two columns (SQL error); `... | sort {a} | append ...` and `group .. | append ..` drop / reorder bottom columns.",
  {"source": "let l0 = (from t1 | select {a, b})\nfrom l0 | append (from t2 | select {a, c}) | select {b, a}", "arity": 2,
@@ -146,7 +146,7 @@ finding("C04-stale-sort-after-aggregate", "C04", ["C01", "C03"],
  {"source": "from t1 | select {id, a} | sort {-id} | aggregate {m = min a} | join side:right r0 = (from t2 | select {c = id}) (m == c) | derive {r = (rank c)}", "arity": 3,
   "rows": [[I(1),I(1),I(1)],[N,I(2),I(1)]]})
 
-finding("C16-computed-sort-key-lowered-into-subpipeline", "C16", [],
+finding("C16-computed-sort-key-lowered-into-subpipeline", "C16", ["C01", "C03", "C04", "C07"],
  "a sort with a computed key is in effect when a sub-pipeline or let-table is joined / appended; violation text `column id N used in table T transform 1 (Compute) is not defined before its use`",
  "`from t1 | select {id, a} | sort {(a * -1)} | join r0 = (from t2 | select {id, c}) (true) | group {a} (aggregate {n = count this})`: the Compute of the sort key `a * -1` is placed into the table declared for the sub-pipeline (table 2), where it refers to a column id of the main pipeline: the RQ is not closed.",
  None)
@@ -302,11 +302,15 @@ finding("C08-bigquery-quote-doubling", "C08", [],
  "dialect bigquery, a string literal containing a single quote",
  "Quotes are escaped by doubling for every dialect. BigQuery does not accept doubled quotes (it needs a backslash) and reads three quotes in a row as the start of a triple-quoted string: a value that starts with a quote is emitted as three quotes in a row followed by the rest, an unterminated literal under BigQuery lexical rules.",
  None)
-finding("C06-let-sort-not-applied-to-windows", "C06", ["C03"],
+finding("C06-let-sort-not-applied-to-windows", "C06", ["C03", "C01", "C04", "C07"],
  "a pipeline prefix that ends with a sort in effect is named with let / into and the continuation uses a window function (rank, row_number, lag, running sum ...)",
  "`from t2 | select {id, f, x} | sort {-x, -id} | derive {c1 = (rank id)}` ranks in the sort order (`RANK() OVER (ORDER BY x DESC, id DESC)`); after `... | sort {-x, -id} | into z` + `from z | derive {c1 = (rank id)}` the window has no ORDER BY (`RANK() OVER ()`, every row gets rank 1) although the final ORDER BY is still propagated: the sort of a let-table is carried to the end of the query but not to window functions.",
  None)
-finding("C07-loop-after-sort-arity", "C07", [],
+finding("C06-sorted-let-aggregate-key-recomputed", "C06", [],
+ "a pipeline prefix that ends with a sort in effect on a column produced by `aggregate` (inside or outside a group) is named with let / into, and the continuation no longer selects that column",
+ "`from t2 | select {id} | group {id} (aggregate {c0 = min 25, c1 = count 5}) | sort {id, c1} | filter .. | select {c2 = 'ab', c0}`: after naming the prefix up to the sort `zlet0`, the reader is compiled as `table_0 AS (SELECT 'ab' AS c2, c0, id, COUNT(*) AS c1 FROM zlet0)`: the sort key is not read from the CTE but re-evaluated as an aggregate in the outer SELECT, which turns it into an aggregate query (one row of NULLs instead of the filtered rows). The inline form carries the key as `_expr_0`.",
+ None)
+finding("C07-loop-after-sort-arity", "C07", ["C05"],
  "a `loop` whose input pipeline has a sort in effect: the emitted WITH RECURSIVE has a UNION ALL between different arities",
  "`from t1 | select {id} | sort {id} | take 3 | select {zn = 1} | loop (filter zn < 4 | select {zn = zn + 1})`: the sort column is appended to the anchor of the recursive CTE only (`SELECT 1 AS zn, id FROM .. UNION ALL SELECT zn + 1 FROM table_0 ..`).",
  None)
